@@ -296,7 +296,12 @@ class Input(object):
                 self.script_type = script.script_types[0]
         if self.locking_script and not self.signatures:
             ls = Script.parse_bytes(self.locking_script, is_locking=True, strict=strict)
-            self.public_hash = self.public_hash if not ls.public_hash else ls.public_hash
+            # A P2SH script that wraps a witness program commits to the hash of that program, not to the key hash or
+            # redeemscript hash the unlocking script and the signed script code of this input are built from
+            nested = ls.script_types[0] == 'p2sh' and \
+                (self.script_type in ['p2sh_p2wpkh', 'p2sh_p2wsh'] or self.witness_type == 'p2sh-segwit')
+            if ls.public_hash and not nested:
+                self.public_hash = ls.public_hash
             if ls.script_types[0] in ['p2wpkh', 'p2wsh']:
                 self.witness_type = 'segwit'
         self.sigs_required = sigs_required if sigs_required else 1
